@@ -1,5 +1,8 @@
-(* C14 - H265: header accessors decode every field exactly (theorems closed so far; the payloader /
-   parser round trip with its two known findings is in preparation). *)
+(* C14 - H265.  Header accessors decode every field exactly (complete enumerations lifted to
+   statements); the payloader / parser round trip for AddDONL off (C14_lossless_partial, everything
+   outside KF-C14-lone-fu); the parser against an independent RFC 7798 encoder for every form with and
+   without DONL (C14_parse_forms, C14_paci_tsci) and its refusal of every truncation that cuts into
+   the structure the form requires (C14_parse_truncated); the two known findings as witnesses. *)
 From Coq Require Import ZArith List.
 From RTP Require Import Base.Bits Base.Res Model.H265 Proofs.C14_Accessors Proofs.C09_Total.
 Open Scope Z_scope.
@@ -137,6 +140,31 @@ Theorem C14_paci_tsci : forall a ctype phs f0 f1 f2 y phes,
         else None).
 Proof. exact paci_tsci_spec. Qed.
 Print Assumptions C14_paci_tsci.
+
+(* "... and reject truncated ones": [min_len d f] is the length of the structure the form cannot do
+   without - payload header plus one byte (plus DONL); FU header plus one byte (plus DONL in a start
+   fragment); PACI fields, the whole PHES and one byte; the aggregation header through the end of
+   the second unit.  Every prefix shorter than that is refused with an error (never accepted, never
+   a panic); the payload itself is at least that long.  (Longer prefixes are themselves well-formed
+   payloads of the same form - a shorter NAL unit, fewer aggregated units - and C14_parse_forms
+   applies to them.) *)
+From RTP Require Import Proofs.C14_Trunc.
+
+Theorem C14_parse_truncated : forall with_donl f k, wf_form f -> 0 <= k < min_len with_donl f ->
+  exists e, h265_unmarshal with_donl (Some (take k (encode with_donl f))) = Err e.
+Proof. exact parse_truncated. Qed.
+Print Assumptions C14_parse_truncated.
+
+Theorem C14_min_len_le : forall with_donl f, wf_form f -> min_len with_donl f <= zlen (encode with_donl f).
+Proof. exact min_len_le. Qed.
+Print Assumptions C14_min_len_le.
+
+Example C14_parse_truncated_nonvacuous :
+  let f := FAgg 1 2 513 [64; 1; 9] [(7, [2; 1]); (0, [66; 1; 5; 5])] in
+  min_len true f = 14 /\ zlen (encode true f) = 21 /\
+  h265_unmarshal true (Some (take 13 (encode true f))) = Err EShort /\
+  h265_unmarshal true (Some (take 14 (encode true f))) = Ok (PAgg (Some 513) [64; 1; 9] [(Some 7, [2; 1])]).
+Proof. repeat split; vm_compute; reflexivity. Qed.
 
 Example C14_parse_forms_nonvacuous :
   encode true (FAgg 1 2 513 [64; 1; 9] [(7, [2; 1]); (0, [66; 1; 5; 5])])
